@@ -58,7 +58,7 @@ TEXT = {
  "C01": {
   "level": "TLC explores the create_node derivation machine (GESynthesis) for every grammar of a TLC-enumerated family x grow / full / PI-grow x depth limits and checks WellTypedWhenDone as an invariant, and the progressively-terminal decider (no limit) for termination (MC_SynPT: bounded depth, the rule before its repair must fail); every program the real library creates, maps, mutates or crosses over with all five representations (fixed + generated grammars) is projected structurally and TLC evaluates WellTyped against the declared class hierarchy, rejects foreign / lazy values and non-library exceptions.",
   "ref": "DESIGN.md section 4 C01",
-  "note": "typing oracle = declared classes; user-defined metahandlers other than the shipped / test-suite ones not modelled",
+  "note": "typing oracle = declared classes; user-defined metahandlers other than the shipped / test-suite ones not modelled; entry points beyond the representations: population initialisers (warm start from programs and Individuals), CooperativeGP and SimpleGP front ends with every representation name",
   "technique": "TLA+ model checking (TLC) of the derivation machine + trace validation of every produced program with the WellTyped predicate evaluated by TLC",
  },
  "C02": {
@@ -82,13 +82,13 @@ TEXT = {
  "C10": {
   "level": "the grammar is a variable of the derivation machine and TLC checks the action property [][G' = G]; after real workloads that fail and backtrack the Grammar object is re-projected (productions in order, distances, recursive set, symbols, weights) and TLC compares it with the projection taken before; the creatable set is enumerated exhaustively before and after such a workload on the same object and compared by TLC.",
   "ref": "DESIGN.md section 4 C10",
-  "note": "workloads sampled; creatable set compared on finite-choice grammars and the dependent-context grammar",
+  "note": "workloads sampled; creatable set compared on finite-choice grammars and the dependent-context grammar, also through ONE decider object that went through the failing operations; the projection includes the abstract-distance table",
   "technique": "TLA+ action property (TLC) + trace validation of grammar projections + exhaustive creatable-set comparison",
  },
  "C11": {
   "level": "GEMeta defines node count, distance, weighted size and type index independently on the term structure; every node and list of every program produced by the real code (all deciders, tree / GE / SGE / dSGE, after mutation and crossover) carries its recorded labels in the projection and TLC compares them with the structural definitions at every node.",
   "ref": "DESIGN.md section 4 C11",
-  "note": "default depth-counting mode; stack representation excluded (attaches no labels); tuples opaque",
+  "note": "both depth-counting modes (expansion mode also on the raw-source grammars: refined non-terminal fields, user-written list refinements); stack representation excluded (attaches no labels); tuples opaque",
   "technique": "TLA+ structural definitions evaluated by TLC on projected programs (trace validation) + derivation-machine model",
  },
  "C06": {
@@ -100,13 +100,13 @@ TEXT = {
  "C07": {
   "level": "TLC explores all interleavings of create / map / draw / mutate over <= 3 genotypes (GEMapping) and checks MapStable, MapDoesNotDraw and append-only gene extension, for fixed-length and dynamically extended genotypes (an impure variant - the pinned GE / SGE behaviour - must fail); TLC-generated interleavings are replayed on the real GE / SGE / dSGE / stack representations with several deciders and grammars with refined fields, around a counting wrapper of the shared source, and TLC validates every mapping event: same program as the first mapping of that genotype, no raw draw on the shared source other than the genes dSGE appends, genotype unchanged except by such an extension.",
   "ref": "DESIGN.md section 4 C07",
-  "note": "interleavings sampled beyond length 2; purity is judged by raw-draw counts on the shared source",
+  "note": "interleavings sampled beyond length 2; purity is judged by raw-draw counts on the shared source; deciders that were used directly before a mapping borrows them; refinements wider than the codon range",
   "technique": "TLA+ model checking (TLC) of mapping/stream interleavings + replay of TLC-generated interleavings with trace validation",
  },
  "C19": {
   "level": "TLC enumerates every weight assignment over {unweighted,0,1,2,6} for two nested non-terminals and checks NonNegative, SumToOne, RatiosKept and Idempotent on the normalisation step function (a no-reset-per-rule variant must fail) and the zero-weight contract of the weighted choice for all raw draws (GERandom); weighted class hierarchies are instantiated with fresh classes, extracted three times and the projected weights validated by TLC against the declared weights; ProgressivelyTerminalDecider and the stack representation's weighted choice are driven through all boundary raw draws and TLC checks that no zero-weight production is chosen while a positive one is offered.",
   "ref": "DESIGN.md section 4 C19",
-  "note": "tolerance 2e-4; all-zero rules excluded",
+  "note": "tolerance 2e-4; all-zero rules excluded; GEWeightStore: every history of extractions over subsets of shared classes and re-declarations (normalise-from-stored must fail); real history: a smaller grammar extracted first",
   "technique": "TLA+ model checking (TLC) of the normalisation + replay of weighted hierarchies and exhaustive scripted draws of the weight-aware choosers, judged by TLC",
  },
  "C09": {
@@ -118,7 +118,7 @@ TEXT = {
  "C08": {
   "level": "GEDeterminism is a self-composition: two runs consume the same raw stream while the environment picks an arbitrary iteration order of the symbol collection per run; TLC checks Agree for all orders when the design iterates canonically and must find the divergence for raw set-order iteration; real seeded searches (2-4 algorithms x 5 representations x grammars with refined / string fields) are run twice in-process and in fresh interpreters with different PYTHONHASHSEED, allocation padding and import order, and TLC validates that every run evaluates the same sequence of programs and returns the same best.",
   "ref": "DESIGN.md section 4 C08",
-  "note": "process environments are sampled, not enumerated",
+  "note": "process environments are sampled, not enumerated (hash seed, padding before class definitions, import order, allocator holes released in a per-process order); few fitness levels so that ties reach the elitism cut",
   "technique": "TLA+ self-composition model checked by TLC + trace validation of merged evaluation sequences from separate processes",
  },
 }
